@@ -14,6 +14,10 @@ def replay(prop, path, vxname):
         n, edges = case["cli_cyc_ckpt"]
         r = cli_slices.cyc_ckpt_task((n, [tuple(e) for e in edges]))
         defects = [{"sig": "cli:" + s, "detail": d} for s, d, _ in r["v"]]
+    elif "cli_acyc_ckpt" in case:
+        n, edges, prior = case["cli_acyc_ckpt"]
+        r = cli_slices.acyc_ckpt_task((n, [tuple(e) for e in edges], prior))
+        defects = [{"sig": "cli:" + s, "detail": d} for s, d, _ in r["v"]]
     elif "cli_config" in case or "cli_graph" in case:
         if "cli_graph" in case:
             g = case["cli_graph"]
